@@ -274,7 +274,7 @@ def run(ctx):
     warnings.filterwarnings("ignore")
     from quantecon.markov import DiscreteDP, backward_induction
 
-    n_inst = 220 if thorough else 70
+    n_inst = 220 if thorough else 90
     insts = []
     # hand-made corner cases first: single state, all ties, beta in {0,1}
     insts.append(Inst(1, 1, [[Fraction(2)]], [[[Fraction(1)]]], Fraction(1, 2), True, "corner"))
@@ -517,16 +517,16 @@ def run(ctx):
 
     bad = ctx.coq_check("constructor_sa", IMPORTS, DD + " * nat * list nat * list nat * list nat * list (ext Q) * list (list Q)",
                         "fun c => let '(cd, n, s, a, p, R, Qm) := c in with_ok cd (fun d => ddp_close %s d n s a p R Qm)" % TOLd,
-                        ctor_cases, chunk=60, preamble=PREAMBLE)
+                        ctor_cases, chunk=100, preamble=PREAMBLE)
     report(bad, "C09.Model.mk_sa (sorted path / CSR re-sorting) vs DiscreteDP.__init__", ctor_meta)
     BT = DD + " * list (list Q * list Q * list nat)"
     bad = ctx.coq_check("bellman_exact", IMPORTS, BT,
                         "fun c => let '(cd, ts) := c in with_ok cd (fun d => forallb (fun t => let '(v, tv, sg) := t in "
-                        "Qs_eqb (bellman_operator d v) tv && nats_eqb (compute_greedy d v) sg) ts)", bell_exact, chunk=40, preamble=PREAMBLE)
+                        "Qs_eqb (bellman_operator d v) tv && nats_eqb (compute_greedy d v) sg) ts)", bell_exact, chunk=60, preamble=PREAMBLE)
     report(bad, "C09.Model.bellman_operator/compute_greedy (exact, dyadic data) vs DiscreteDP", meta_exact)
     bad = ctx.coq_check("bellman_close", IMPORTS, BT,
                         "fun c => let '(cd, ts) := c in with_ok cd (fun d => forallb (fun t => let '(v, tv, sg) := t in "
-                        "Qs_close %s (bellman_operator d v) tv && near_greedy %s d v sg) ts)" % (TOLQ, TOLQ), bell_close, chunk=40, preamble=PREAMBLE)
+                        "Qs_close %s (bellman_operator d v) tv && near_greedy %s d v sg) ts)" % (TOLQ, TOLQ), bell_close, chunk=60, preamble=PREAMBLE)
     report(bad, "C09.Model.bellman_operator/compute_greedy (1e-9, near-greedy) vs DiscreteDP", meta_close)
     bad = ctx.coq_check("bellman_float_huge", IMPORTS, "cres (ddp float) * list float * list float * list nat",
                         "fun c => let '(cd, v, tv, sg) := c in with_ok cd (fun d => Fs_eqb (bellman_operator d v) tv && nats_eqb (compute_greedy d v) sg)",
@@ -536,25 +536,25 @@ def run(ctx):
                         "fun c => let '(cd, ts) := c in with_ok cd (fun d => forallb (fun t => let '(sg, Rs, Qs, v, tsv) := t in "
                         "match RQ_sigma_fin d sg, controlled_mc d sg, T_sigma d sg v with "
                         "| Some (mr, mq), Some mc, Some mt => Qs_close %s mr Rs && Qss_close %s mq Qs && Qss_close %s mc Qs && Qs_close %s mt tsv "
-                        "| _, _, _ => false end) ts)" % (TOLd, TOLd, TOLd, TOLQ), rq_cases, chunk=30, preamble=PREAMBLE)
+                        "| _, _, _ => false end) ts)" % (TOLd, TOLd, TOLd, TOLQ), rq_cases, chunk=60, preamble=PREAMBLE)
     report(bad, "C09.Model.RQ_sigma/controlled_mc/T_sigma vs DiscreteDP", rq_meta)
     bad = ctx.coq_check("evaluate_policy", IMPORTS, DD + " * list (list nat * list Q)",
                         "fun c => let '(cd, ts) := c in with_ok cd (fun d => forallb (fun t => let '(sg, ev) := t in "
-                        "match evaluate_policy d sg with Some x => Qs_close %s x ev | None => false end) ts)" % TOLQ, ev_cases, chunk=20, preamble=PREAMBLE)
+                        "match evaluate_policy d sg with Some x => Qs_close %s x ev | None => false end) ts)" % TOLQ, ev_cases, chunk=50, preamble=PREAMBLE)
     report(bad, "C09.Model.evaluate_policy (exact certified solve) vs DiscreteDP.evaluate_policy (1e-9)", ev_meta)
     bad = ctx.coq_check("backward_induction", IMPORTS, DD + " * nat * list Q * list (list Q) * list (list nat)",
                         "fun c => let '(cd, Th, vt, vs, sgs) := c in with_ok cd (fun d => let '(mvs, msg) := backward_induction d Th vt in "
                         "Qss_close %s mvs vs && Nat.eqb (length sgs) Th && "
                         "forallb (fun p => near_greedy %s d (fst p) (snd p)) (combine (tl mvs) sgs) && "
                         "forallb (fun p => list_eqb (fun x y => Nat.eqb x y || true) (fst p) (snd p)) (combine msg sgs))" % (TOLQ, TOLQ),
-                        bi_cases, chunk=12, preamble=PREAMBLE)
+                        bi_cases, chunk=40, preamble=PREAMBLE)
     report(bad, "C09.Model.backward_induction vs markov.ddp.backward_induction", bi_meta)
     bad = ctx.coq_check("form_conversion", IMPORTS, DD + " * bool * list nat * list nat * list nat * list (ext Q) * list (list Q)",
                         "fun c => let '(cd, tosa, s, a, p, R, Qm) := c in with_ok cd (fun d => "
                         "match (if tosa then to_sa_pair_form d else to_product_form d) with "
                         "| COk d' => ddp_close %s d' (d_n d) s a p R Qm && "
                         "  (if tosa then match to_product_form d' with COk d2 => true | _ => false end else true) | _ => false end)" % TOLd,
-                        conv_cases, chunk=40, preamble=PREAMBLE)
+                        conv_cases, chunk=100, preamble=PREAMBLE)
     report(bad, "C09.Model.to_sa_pair_form/to_product_form vs DiscreteDP", conv_meta)
 
     constructor_rejection(ctx, thorough)
@@ -672,7 +672,7 @@ def constructor_rejection(ctx, thorough):
     with tempfile.TemporaryDirectory(dir=ctx.work) as td:
         inp, outp, script = os.path.join(td, "in.json"), os.path.join(td, "out.json"), os.path.join(td, "sub.py")
         json.dump(cases, open(inp, "w")); open(script, "w").write(SUB)
-        env = dict(os.environ, NUMBA_BOUNDSCHECK="1", NUMBA_CACHE_DIR=os.path.join(VERIF, ".cache", "numba_boundscheck"),
+        env = dict(os.environ, NUMBA_BOUNDSCHECK="1", NUMBA_CACHE_DIR=os.environ.get("NUMBA_CACHE_DIR", os.path.join(VERIF, ".cache", "numba")).rstrip("/") + "_boundscheck",
                    PYTHONPATH=REPO)
         rc, out = common._run(["/venv/bin/python", script, inp, outp], env=env, timeout=600)
         if rc != 0 or not os.path.exists(outp):
